@@ -114,36 +114,44 @@ def readInteger (cfg : LexCfg) (delims : Option (List Byte)) (s : IStream) (err 
     (collected digits in order, rest) -/
 def realDigits : List Byte → List Byte × List Byte := takeDigits
 
+/-- optional sign: (collected, rest) -/
+def optSign (r : List Byte) : List Byte × List Byte :=
+  match r with
+  | 43 :: t => ([43], t)
+  | 45 :: t => ([45], t)
+  | _ => ([], r)
+
+/-- optional decimal point: (collected, rest) -/
+def optDot (r : List Byte) : List Byte × List Byte :=
+  match r with
+  | 46 :: t => ([46], t)
+  | _ => ([], r)
+
+/-- optional exponent part `[eE] sign? digits*`: (collected, rest, lower-case letter used, no digit after the letter) -/
+def expPart (r : List Byte) : List Byte × List Byte × Bool × Bool :=
+  match r with
+  | c :: t =>
+    if c == 101 || c == 69 then
+      let sg := optSign t
+      let ed := realDigits sg.2
+      (c :: (sg.1 ++ ed.1), ed.2, c == 101, ed.1.isEmpty)
+    else ([], r, false, false)
+  | [] => ([], [], false, false)
+
 /-- The character-collecting part of `ReadReal` on the unread bytes (the stream is good and non-empty or at its
     end; `peek` at the end yields a non-digit and sets `eofbit`).  Returns the collected text `buf`, the rest, and
     the format severity `e` (WARNING for: no initial digit, no decimal point, lower-case `e`, no exponent digit). -/
 def realCollect (r : List Byte) : List Byte × List Byte × Sev :=
-  let (sg, r1) : List Byte × List Byte :=
-    match r with
-    | 43 :: t => ([43], t)
-    | 45 :: t => ([45], t)
-    | _ => ([], r)
-  let (ip, r2) := realDigits r1
-  let e1 : Sev := if ip.isEmpty then .warning else .null
-  let (dot, r3, e2) : List Byte × List Byte × Sev :=
-    match r2 with
-    | 46 :: t => ([46], t, e1)
-    | _ => ([], r2, .warning)
-  let (fp, r4) := realDigits r3
-  match r4 with
-  | c :: t =>
-    if c == 101 || c == 69 then
-      let e3 : Sev := if c == 101 then .warning else e2
-      let (esg, r5) : List Byte × List Byte :=
-        match t with
-        | 43 :: u => ([43], u)
-        | 45 :: u => ([45], u)
-        | _ => ([], t)
-      let (ed, r6) := realDigits r5
-      let e4 : Sev := if ed.isEmpty then .warning else e3
-      (sg ++ ip ++ dot ++ fp ++ [c] ++ esg ++ ed, r6, e4)
-    else (sg ++ ip ++ dot ++ fp, r4, e2)
-  | [] => (sg ++ ip ++ dot ++ fp, [], e2)
+  let sg := optSign r
+  let ip := realDigits sg.2
+  let dot := optDot ip.2
+  let fp := realDigits dot.2
+  let ex := expPart fp.2
+  let e1 : Sev := if ip.1.isEmpty then .warning else .null
+  let e2 : Sev := if dot.1.isEmpty then .warning else e1
+  let e3 : Sev := if ex.2.2.1 then .warning else e2
+  let e4 : Sev := if ex.2.2.2 then .warning else e3
+  (sg.1 ++ ip.1 ++ dot.1 ++ fp.1 ++ ex.1, ex.2.1, e4)
 
 /-- outcome of a scanner that writes into a fixed buffer -/
 inductive Outcome (α : Type) where
